@@ -264,6 +264,7 @@ func rulesExtract(p *Prog, r *Report, eng *Engine) {
 		}
 	}
 	var dedupFn *ssa.Function
+	fusedDedup := false
 	// E1c: one string per flattened node — in ExtractLicenses itself, or in a helper that is handed the
 	// flattened nodes and returns the strings
 	{
@@ -271,6 +272,8 @@ func rulesExtract(p *Prog, r *Report, eng *Engine) {
 		if flatCall != nil {
 			mapColl = flatCall
 		}
+		var fusedFn *ssa.Function
+		var fusedAcc ssa.Value
 		viaHelper := ""
 		if flatCall != nil {
 			for _, ref := range *flatCall.Referrers() {
@@ -301,6 +304,32 @@ func rulesExtract(p *Prog, r *Report, eng *Engine) {
 				continue
 			}
 			elems, _ := appendedElems(al.App)
+			if !al.Unconditional && len(elems) == 1 && len(al.OtherState) == 0 {
+				// one loop that renders and de-duplicates at once: the only guard of the append is "this text
+				// has not been appended yet", judged on a fresh map written only with texts just appended
+				if fwhy := fusedFirstOccurrences(newBoundsProver(p, eng).forFn(mapFn), al, elems[0]); fwhy == "" {
+					pv := qz.prov(elems[0], 0)
+					returned := viaHelper == ""
+					for _, ref := range *al.Acc.Referrers() {
+						if _, isRet := ref.(*ssa.Return); isRet {
+							returned = true
+						}
+					}
+					switch {
+					case !(strings.Contains(pv, "reconstructedLicenseString(elem(") || strings.Contains(pv, ").reconstructedLicenseString(")):
+						why = "the appended string is not the canonical text of the current node: " + pv
+					case !returned:
+						why = viaHelper + " does not return the list it builds"
+					default:
+						ok = true
+						fusedFn, fusedAcc = mapFn, al.Acc
+					}
+					continue
+				} else {
+					why = "a string is appended only conditionally (" + fwhy + ")"
+					continue
+				}
+			}
 			switch {
 			case !al.Unconditional:
 				why = "a string is appended only conditionally"
@@ -368,6 +397,16 @@ func rulesExtract(p *Prog, r *Report, eng *Engine) {
 					continue
 				}
 				pv := qz.prov(ret.Results[0], 0)
+				if fusedFn != nil {
+					dc, isCall := ret.Results[0].(*ssa.Call)
+					if (fusedFn == ext && ret.Results[0] == fusedAcc) || (isCall && dc.Call.StaticCallee() == fusedFn) {
+						fusedDedup = true
+						r.OK("E1", "ExtractLicenses|result", p.pos(ret.Pos()), "the list built by the rendering and de-duplicating loop", "", false)
+					} else {
+						r.Bad("E1", "ExtractLicenses|result", p.pos(ret.Pos()), "the result is not the de-duplicated list of all strings: "+pv)
+					}
+					continue
+				}
 				if dc, isCall := ret.Results[0].(*ssa.Call); isCall && dc.Call.StaticCallee() != nil && p.InModule(dc.Call.StaticCallee()) && len(dc.Call.Args) == 1 && isStringSlice(dc.Type()) && isStringSlice(dc.Call.Args[0].Type()) {
 					// the de-duplication is whatever in-module ([]string) []string function the result goes through; E2 judges it
 					dedupFn = dc.Call.StaticCallee()
@@ -380,7 +419,9 @@ func rulesExtract(p *Prog, r *Report, eng *Engine) {
 	}
 
 	// E2
-	if dd := dedupFn; dd == nil {
+	if fusedDedup {
+		r.OK("E2", "removeDuplicateStrings", p.pos(ext.Pos()), "first occurrences, in order (de-duplication fused into the rendering loop)", "", true)
+	} else if dd := dedupFn; dd == nil {
 		r.Unknown("E2", "anchor", "-", "unresolved anchor: the de-duplication applied to the result of ExtractLicenses")
 	} else {
 		r.Funcs[p.shortKey(dd)] = true
@@ -765,4 +806,37 @@ func isNodeSlice(t types.Type, node *types.Named, depth int) bool {
 		t = sl.Elem()
 	}
 	return node != nil && isNodePtr(t, node)
+}
+
+// fusedFirstOccurrences: the append of text `elem` in loop al is guarded by exactly one condition, the
+// negative comma-ok of a lookup of that same text in a fresh map, and the map is written only with that text
+// in the append's block. Returns "" when so, else what is different.
+func fusedFirstOccurrences(fb *fnBounds, al appendLoop, elem ssa.Value) string {
+	gs := guardsOf(fb, al)
+	if len(gs) != 1 {
+		return fmt.Sprintf("the append is guarded by %d conditions, expected exactly the membership test", len(gs))
+	}
+	cond, pol := gs[0].c, gs[0].pol
+	if u, isNot := cond.(*ssa.UnOp); isNot && u.Op == token.NOT {
+		cond, pol = u.X, !pol
+	}
+	ex, isEx := cond.(*ssa.Extract)
+	if !isEx || ex.Index != 1 || pol {
+		return "the guard is not 'text not yet seen'"
+	}
+	lk, isLk := ex.Tuple.(*ssa.Lookup)
+	if !isLk || lk.Index != elem {
+		return "the membership test does not use the appended text as key"
+	}
+	if _, isMake := lk.X.(*ssa.MakeMap); !isMake {
+		return "the seen-set is not a fresh map"
+	}
+	for _, ref := range *lk.X.Referrers() {
+		if mu, isMU := ref.(*ssa.MapUpdate); isMU {
+			if mu.Key != elem || mu.Block() != al.App.Block() {
+				return "the seen-set is written with something other than the text just appended"
+			}
+		}
+	}
+	return ""
 }
